@@ -21,7 +21,7 @@ func c18(c *eng.Ctx, r *eng.Report) {
 	r.Level = "proof"
 	r.Explain = "strToBigInt is exact on every decimal string with at most 18 fractional and 78 integer digits, and strToBigInt(bigIntToStr(n,18),18) = n, by abstract interpretation of the function over {exact decimal, big.Float with relative error bound and direction}: the checker extracts prec, the rounding mode, the base and the pipeline ParseFloat → (*Float).Mul(target, target, base) → (*Float).Int from the SSA and discharges O1 prec >= bitlen(10^96)+3, O2 both roundings err away from zero (mode AwayFromZero inherited by Mul's receiver), O3 N_max·((1+2^(1-prec))^2-1) < 1 hence trunc(r) = N, O4 bigIntToStr/BigIntToStr are float-free string arithmetic emitting exactly `precision` fractional digits, O5 the ERC20/Rocket formatters are compositions of the two and every balance read/write in accountdb_tuntun.go passes them, O6 the value of a wrapped Ethereum transaction travels ConvertTx → TransferValue → decodeContractData as BigIntToStr(value) → StrToBigInt(string) with no intermediate rewriting and no floating-point type, and the assignment in ConvertTx is conditional on nothing but the value being non-nil (a creation, which has no recipient, carries its value like a call). " +
 		"O7 the converters consult no process-local state (no cache, package-variable store or shared object in their cone), so the result depends on the arguments only. " +
-		"Lemma (written out): for a decimal q = N/10^d with N < 10^96, r1 = round_away(q) satisfies |q| <= |r1| < |q|(1+e), e = 2^(1-prec); base = 10^d is exact (SetInt); r2 = round_away(r1·base) satisfies N <= |r2| < N(1+e)^2; O3 gives N(1+e)^2 - N < 1, so trunc(r2) = N. With a to-nearest mode r2 could fall below N and truncate to N-1, hence O2. " +
+		"Lemma (written out): for a decimal q = N/10^d with N < 10^96, r1 = round_away(q) satisfies |q| <= |r1| < |q|(1+e), e = 2^(1-prec); base = 10^d is exact (SetInt); r2 = round_away(r1·base) satisfies N <= |r2| < N(1+e)^2; O3 gives N(1+e)^2 - N < 1, so trunc(r2) = N. With a to-nearest mode r2 could fall below N and truncate to N-1, hence O2; O8 the decoded value of a wrapped transaction is read-only on its way to the EVM: no function of the executor package calls a mutating (*big.Int) method (Add, Sub, Mul, Set…) with ContractData.TransferValue as its receiver — the struct travels by value but the *big.Int inside is the one stored in context[\"contractData\"], so an in-place sum in the fee pre-check changes the amount handed to vm.Call. " +
 		"Not decided: strings with more than 18 fractional digits, non-decimal syntaxes accepted by ParseFloat."
 	r.Trusted = []string{"math/big rounding semantics as documented (ParseFloat rounds once to prec with the given mode; z.Mul rounds to z's precision with z's mode; SetInt is exact when prec >= bit length; Int truncates toward zero)", "go/types constant evaluation", "go/ssa lowering", "the error-propagation lemma in coverage.explanation"}
 	c18Parse(c, r)
@@ -29,6 +29,7 @@ func c18(c *eng.Ctx, r *eng.Report) {
 	c18Accessors(c, r)
 	c18EthValue(c, r)
 	c18Pure(c, r)
+	c18ValueNotMutated(c, r)
 }
 
 func c18Parse(c *eng.Ctx, r *eng.Report) {
@@ -413,5 +414,32 @@ func c18Pure(c *eng.Ctx, r *eng.Report) {
 	}
 	if hits == 0 {
 		r.Pass(rule, "purity", "", fmt.Sprintf("no cache, package-variable store, shared object, map range, clock or randomness in the %d utility functions reachable from the converters", n))
+	}
+}
+
+// c18ValueNotMutated: O8.
+func c18ValueNotMutated(c *eng.Ctx, r *eng.Report) {
+	const rule = "O8"
+	mut := map[string]bool{"Add": true, "Sub": true, "Mul": true, "Div": true, "Quo": true, "Mod": true, "Rem": true, "Set": true, "SetBytes": true, "SetUint64": true, "SetInt64": true, "SetString": true, "Neg": true, "Abs": true, "Exp": true, "Lsh": true, "Rsh": true, "And": true, "Or": true, "Xor": true, "Not": true, "Sqrt": true, "QuoRem": true, "DivMod": true, "SetBit": true, "SetBits": true}
+	n, hits := 0, 0
+	for _, pkg := range []string{"executor", "eth_tx"} {
+		for _, fn := range c.PkgFuncs(pkg) {
+			for _, s := range eng.Sites(fn) {
+				nm := s.Name()
+				if !strings.HasPrefix(nm, "(*math/big.Int).") || !mut[strings.TrimPrefix(nm, "(*math/big.Int).")] {
+					continue
+				}
+				n++
+				recv := eng.ResolveLocal(s.Common().Args[0])
+				if !strings.HasSuffix(eng.Desc(recv), ".TransferValue") {
+					continue
+				}
+				hits++
+				r.Fail(rule, "value-mutated:"+eng.FuncName(fn), c.Pos(s.Pos()), eng.FuncName(fn)+" calls "+nm+" with ContractData.TransferValue as the receiver: the *big.Int is shared with the copy kept in context[\"contractData\"], so the amount later handed to vm.Call/vm.Create is value + gasLimit × gas price instead of the value the sender signed (1235567890123456789 for 1234567890123456789)")
+			}
+		}
+	}
+	if hits == 0 {
+		r.Pass(rule, "value-mutated:none", "", fmt.Sprintf("%d mutating big.Int calls in executor/eth_tx, none with TransferValue as receiver", n))
 	}
 }
